@@ -59,7 +59,13 @@ def r_memo(run, tree):
     check_memoised_functions(run, tree, modules=("io/", "config/", "units/", "core/dataset"))
 
 
-RULES = [r_shared_c15_r5, r1, r2, r3, r4, r6_preselection_history, r7_conditions, r_memo]
+def r9_dataset_level(run, tree):
+    run.rule("C15.R9", "at the dataset level a load REPLACES the groups it produces: RamsesDataset.load folded over histories of calls returning different variable sets for "
+             "the same group - nothing of the replaced group survives, earlier groups are kept, the derived-variable hook runs after every load", "D7 history fold of io/ramses.py::RamsesDataset.load on the interpreted Dataset/Datagroup classes", "", floor=4)
+    iof.check_dataset_load_history(run, tree)
+
+
+RULES = [r_shared_c15_r5, r1, r2, r3, r4, r6_preselection_history, r7_conditions, r_memo, r9_dataset_level]
 
 
 def t_load_space(run, tree):
